@@ -698,7 +698,11 @@ func (sys *System) GetCachedLocations(ctx *Context) []string {
 }
 
 func (sys *System) ensureStorage(ctx *Context) (Storage, error) {
-	// Assumes we have the sys lock
+	// Callers do not hold the System's lock, so take it here.
+	// Otherwise the first requests for two locations can each
+	// create a Storage, and one of them is lost.
+	sys.Mutex.Lock()
+	defer sys.Mutex.Unlock()
 	if sys.storage != nil {
 		return sys.storage, nil
 	}
